@@ -55,6 +55,10 @@ def _validate(vtype, val, name):
         itype = vtype.__args__[0]
         if itype != func_xltypes.XlArray:
             val = flatten(val)
+        if itype in (func_xltypes.XlNumber, func_xltypes.XlText):
+            for item in val:
+                if isinstance(item, xlerrors.ExcelError):
+                    raise item
         return tuple(filter(
             lambda x: x is not None,
             [_safe_validate(itype, item, name) for item in val]
